@@ -24,6 +24,10 @@ class Untranslatable(Exception):
 
 # ----------------------------------------------------------------------------- types
 S, V, B, I = "S", "V", "B", "I"
+# log-domain matrices (entries `Option α`, `none` = -inf; Prelude/JnpExt.lean): EM matrix, EMC / EMR the `keepdims=True`
+# reductions over axis -1 / -2 (one value per row / per column), M a finite matrix
+EM, EMC, EMR, M = "EM", "EMC", "EMR", "M"
+MAT_TYPES = {EM: "List (List (Jnp.Ext α))", EMC: "List (Jnp.Ext α)", EMR: "List (Jnp.Ext α)", M: "List (List α)"}
 
 
 def T(*ts):
@@ -55,6 +59,8 @@ def lean_type(t) -> str:
         return f"List ({lean_type(t[1])})"
     if t == "num":
         return "α"
+    if t in MAT_TYPES:
+        return MAT_TYPES[t]
     if isinstance(t, str):
         return t  # raw Lean type
     raise Untranslatable(f"type {t}")
@@ -268,6 +274,60 @@ LIB = {
 }
 
 
+# ---- log-domain matrix primitives (`logmatmulexp`): handlers get the Call node, return None to fall through to LIB
+def _mat_amax(tr, n):
+    if len(n.args) != 2 or [k.arg for k in n.keywords] != ["keepdims"]:
+        raise Untranslatable("jnp.amax form: expected (x, axis, keepdims=True)")
+    kd = n.keywords[0].value
+    if not (isinstance(kd, ast.Constant) and kd.value is True):
+        raise Untranslatable("jnp.amax: keepdims must be True")
+    x, tx = tr._e(n.args[0])
+    try:
+        axis = ast.literal_eval(n.args[1])
+    except ValueError:
+        raise Untranslatable("jnp.amax: axis not a literal")
+    if tx != EM or axis not in (-1, -2):
+        raise Untranslatable(f"jnp.amax on {tx} axis {axis}")
+    return (f"(Jnp.Ext.amaxRows {x})", EMC) if axis == -1 else (f"(Jnp.Ext.amaxCols {x})", EMR)
+
+
+def _mat_stop_gradient(tr, n):
+    if len(n.args) != 1 or n.keywords:
+        raise Untranslatable("stop_gradient form")
+    return tr._e(n.args[0])  # identity on values
+
+
+def _mat_unary(want, lean, ret):
+    def h(tr, n):
+        if len(n.args) != 1 or n.keywords:
+            return None
+        x, tx = tr._e(n.args[0])
+        if tx != want:
+            if tx in MAT_TYPES:
+                raise Untranslatable(f"{lean} on {tx}")
+            return None
+        return f"({lean} {x})", ret
+    return h
+
+
+def _mat_matmul(tr, n):
+    if len(n.args) != 2 or n.keywords:
+        raise Untranslatable("jnp.matmul form")
+    (a, ta), (b, tb) = tr._e(n.args[0]), tr._e(n.args[1])
+    if ta != M or tb != M:
+        raise Untranslatable(f"jnp.matmul {ta} {tb}")
+    return f"(Jnp.matmul {a} {b})", M
+
+
+MAT_LIB = {
+    "jnp.amax": _mat_amax,
+    "jax.lax.stop_gradient": _mat_stop_gradient,
+    "jnp.exp": _mat_unary(EM, "Jnp.Ext.expM", M),
+    "jnp.log": _mat_unary(M, "Jnp.Ext.logM", EM),
+    "jnp.matmul": _mat_matmul,
+}
+
+
 class Tr:
     def __init__(self, tgt: Target, structs: dict):
         self.tgt = tgt
@@ -448,6 +508,10 @@ class Tr:
             raise Untranslatable(ast.dump(n.op))
         a, ta = self._e(n.left)
         b, tb = self._e(n.right)
+        if ta == EM and tb in (EMC, EMR) and sym in ("+", "-"):
+            # broadcast of a log-domain matrix against a `keepdims=True` reduction of matching orientation
+            fn = {("-", EMC): "subCol", ("-", EMR): "subRow", ("+", EMC): "addCol", ("+", EMR): "addRow"}[(sym, tb)]
+            return f"(Jnp.Ext.{fn} {a} {b})", EM
         if ta == "num" and tb == "num":
             return f"({a} {sym} {b})", "num"
         if ta == "num":
@@ -517,6 +581,10 @@ class Tr:
         if (isinstance(n.func, ast.Attribute) and isinstance(n.func.value, ast.Name) and n.func.value.id == "self"
                 and n.func.attr in self.cfg_fns):
             return self.config_fn_call(n, self.cfg_fns[n.func.attr])
+        if fn in MAT_LIB:
+            r = MAT_LIB[fn](self, n)
+            if r is not None:
+                return r
         if fn in LIB:
             pos = [a for a in n.args if not (isinstance(a, ast.Name) and a.id in ("float", "int", "bool"))]
             raw = [self._e(a) for a in pos]
